@@ -32,7 +32,9 @@ class ArgNet(torch.nn.Module):
         self.Wa = torch.nn.Parameter(torch.randn(2, T, generator=g, dtype=torch.float64))
 
     def forward(self, X, a):
-        return self.net(X) + torch.tanh(a.to(torch.float64) @ self.Wa)
+        # the extra argument scales the output (so it changes the gradient, hence the attributions, of its own example) and shifts it
+        a = a.to(torch.float64)
+        return self.net(X) * (1.0 + 0.25 * torch.tanh(a[:, :1])) + torch.tanh(a @ self.Wa)
 
 
 def maxpool_near_tie(ref_model, seqs, rtol=1e-9):
